@@ -95,6 +95,64 @@ func sweepLagrange(tr *fx.Trace, n int) {
 	}
 }
 
+// huntLagrange is the search for a failing input that runs when a proof obligation about the coefficient routines no
+// longer checks: EVERY non-empty subset of {1..n} and every member of it, compared in-process with the textbook formula
+// over big integers.  Only the disagreeing inputs (at most 25) are written to the trace, where the Lean driver judges
+// them like any other `lagrange` line.
+func huntLagrange(tr *fx.Trace, n int) {
+	tr.Reset(nil)
+	type hit struct {
+		mid int
+		ids []int
+	}
+	workers := 16
+	hits := make([][]hit, workers)
+	done := make(chan int, workers)
+	for w := 0; w < workers; w++ {
+		go func(w int) {
+			for mask := 1 + w; mask < 1<<uint(n) && len(hits[w]) < 25; mask += workers {
+				var ids []int
+				for b := 0; b < n; b++ {
+					if mask&(1<<uint(b)) != 0 {
+						ids = append(ids, b+1)
+					}
+				}
+				for _, i := range ids {
+					num, den := big.NewInt(1), big.NewInt(1)
+					for _, j := range ids {
+						if j != i {
+							num.Mul(num, big.NewInt(int64(j)))
+							num.Mod(num, orderN)
+							den.Mul(den, big.NewInt(int64(j-i)))
+							den.Mod(den, orderN)
+						}
+					}
+					want := num.Mul(num, den.ModInverse(den, orderN))
+					want.Mod(want, orderN)
+					got, err := tss.ComputeLagrangeCoefficient(tss.MemberID(i), midsOf(ids))
+					if err != nil || new(big.Int).SetBytes(got).Cmp(want) != 0 {
+						hits[w] = append(hits[w], hit{i, ids})
+					}
+				}
+			}
+			done <- w
+		}(w)
+	}
+	for w := 0; w < workers; w++ {
+		<-done
+	}
+	k := 0
+	for _, hs := range hits {
+		for _, h := range hs {
+			if k < 25 {
+				opLagrange(tr, h.mid, h.ids)
+				k++
+			}
+		}
+	}
+	opLagrange(tr, 1, []int{1, 2, 3}) // (the trace is never empty)
+}
+
 // ---- pure pkg/tss signing flow on a synthetic Shamir group ----------------------------------------------
 func opFlow(tr *fx.Trace, r *fx.Rng) {
 	t := r.PickInt(1, 2, 3, 3, 5, 8, 16, 30)
@@ -125,14 +183,14 @@ func opFlow(tr *fx.Trace, r *fx.Rng) {
 	groupKey := sc(coef[0]).Point()
 	msg := r.Bytes(r.PickInt(0, 1, 32, 100))
 	type mem struct {
-		id         int
-		x, d, e    tss.Scalar
-		Y, D, E    tss.Point
-		rho        tss.Scalar
-		pubNonce   tss.Point
-		privNonce  tss.Scalar
-		lam        tss.Scalar
-		sig        tss.Signature
+		id        int
+		x, d, e   tss.Scalar
+		Y, D, E   tss.Point
+		rho       tss.Scalar
+		pubNonce  tss.Point
+		privNonce tss.Scalar
+		lam       tss.Scalar
+		sig       tss.Signature
 	}
 	ms := make([]*mem, t)
 	var pubDs, pubEs tss.Points
@@ -313,6 +371,12 @@ func main() {
 			n = 10
 		}
 		sweepLagrange(tr, n)
+	case "hunt":
+		n := a.Cases
+		if n == 0 || n > 22 {
+			n = 20
+		}
+		huntLagrange(tr, n)
 	default:
 		app := fx.NewApp()
 		defer app.Close()
